@@ -23,7 +23,7 @@ from ..harness import np_step
 from ..layout import Layout
 from ..netgen import MODEL_PARAMS, all_specs
 from ..parallel import run_shards, shards_of
-from ..spec import NetSpec, build
+from ..spec import NetSpec, build, build_edited
 from .. import valgen
 
 INF = float("inf")
@@ -159,6 +159,21 @@ def check_spec(spec: NetSpec, label, st: Stats, plan):
         judge("numpy", vlabel, val,
               lambda k: val[(k, "d")][0] - (nxt[(k, "w")][0] - val[(k, "w")][0]) / T if abs(nxt[(k, "w")][0]) != INF else INF,
               lambda k: nxt[(k, "w")][0])
+    # the same network reached by editing another, already stepped one in place (stale neighbour lookups)
+    for emode in ("replace", "links", "attachments"):
+        for vlabel, val in vecs[:: max(1, len(vecs) // 12)]:
+            st.inc("executions", 2)
+            st.inc("transitions", 4)
+            try:
+                eng_ = env.numpy_engine(np.float64(27.5))
+                nxt, _, _ = np_step(spec, val, P, built=build_edited(spec, P, emode, engine=eng_), engine=eng_)
+            except Exception as e:  # noqa: BLE001
+                problems.append((f"C17/exception/{exc_site(e)}/{type(e).__name__}", f"numpy, network edited in place ({emode}): "
+                                 f"{exc_text(e)}", {"level": "network", "spec": spec.describe(), "config": label, "P": P}))
+                break
+            judge(f"numpy, network edited in place ({emode}) after a step", vlabel, val,
+                  lambda k: val[(k, "d")][0] - (nxt[(k, "w")][0] - val[(k, "w")][0]) / T if abs(nxt[(k, "w")][0]) != INF else INF,
+                  lambda k: nxt[(k, "w")][0])
     try:
         eng = env.casadi_engine("SX")
         b = build(spec)
